@@ -152,12 +152,32 @@ def table_of(residues):
     return recs
 
 
+MODRES_PARENT = {"PSU": "U", "5MC": "C", "5MU": "U", "H2U": "U", "1MA": "A", "2MG": "G", "M2G": "G", "7MG": "G", "OMC": "C",
+                 "OMG": "G", "YYG": "G", "4SU": "U", "MIA": "A", "6MZ": "A", "1MG": "G", "T6A": "A", "I": "G", "DHU": "U"}
+
+
+def modres_lines(recs):
+    """MODRES records (as deposited PDB entries carry them) for the modified residues of a table"""
+    seen, out = set(), []
+    for r in recs:
+        k = (r["chain"], r["num"], r["icode"], r["resname"])
+        if r["resname"] in MODRES_PARENT and k not in seen:
+            seen.add(k)
+            out.append("MODRES 1XYZ %3s %1s %4d%1s %3s  MODIFIED RESIDUE" % (r["resname"], r["chain"], r["num"], r["icode"] or " ",
+                                                                            MODRES_PARENT[r["resname"]]))
+    return out
+
+
 def table_texts(recs):
-    """(pdb text, cif text) with the same decimal strings"""
+    """(pdb text, cif text) with the same decimal strings; the PDB text carries MODRES records for modified residues"""
     out = []
     for r in recs:
         out.append(dict(r, x=g4v1.dec3(r["x"]), y=g4v1.dec3(r["y"]), z=g4v1.dec3(r["z"])))
-    return g4v1.to_pdb(out), g4v1.to_cif(out)[0]
+    pdb = g4v1.to_pdb(out)
+    mod = modres_lines(recs)
+    if mod:
+        pdb = "\n".join(mod) + "\n" + pdb
+    return pdb, g4v1.to_cif(out)[0]
 
 
 def table_axis_moved(rng, recs):
@@ -226,6 +246,28 @@ def table_icode_siblings(rng, recs):
                 num, pos, run = num + 1, 0, rng.choice([1, 2, 2, 3])
             new = (num, [None, "A", "B"][pos])
             state[r["chain"]] = (num, pos + 1, run)
+        out.append(dict(r, num=new[0], icode=new[1]))
+    return out
+
+
+def table_modified_siblings(recs):
+    """order-preserving renumbering in which every MODIFIED residue shares the number of the residue before it and is
+    told apart by an insertion code (conventional tRNA numbering puts insertion codes exactly on such positions);
+    None when the table is not listed in ascending order or has no modified residue"""
+    if table_icode_siblings(__import__("random").Random(0), recs) is None or not any(r["resname"] in MODRES_PARENT for r in recs):
+        return None
+    out, state, key, new = [], {}, None, None
+    for r in recs:
+        k = (r["chain"], r["num"], r["icode"])
+        if k != key:
+            key = k
+            num, ic = state.get(r["chain"], (0, None))
+            if r["resname"] in MODRES_PARENT and r["chain"] in state and ic != "C":
+                ic = {None: "A", "A": "B", "B": "C"}[ic]
+            else:
+                num, ic = num + 1, None
+            state[r["chain"]] = (num, ic)
+            new = (num, ic)
         out.append(dict(r, num=new[0], icode=new[1]))
     return out
 
